@@ -71,6 +71,8 @@ func vWorldOn(d *verifrt.Disk) *vW {
 func vOffset(name string) uint64 {
 	var bi uint64
 	switch verifrt.Param("offsets", 1) {
+	case 0:
+		bi = verifrt.Choose(name+"_blk", 0, 8, 262664, 1<<62)
 	case 1:
 		bi = verifrt.Choose(name+"_blk", 0, 8, 520, 262663, 262664, 1<<62)
 	default:
@@ -82,7 +84,7 @@ func vOffset(name string) uint64 {
 		return off
 	}
 	var bo uint64
-	if verifrt.Param("offsets", 1) == 1 {
+	if verifrt.Param("offsets", 1) <= 1 {
 		bo = verifrt.Choose(name+"_byte", 0, 4095)
 	} else {
 		bo = verifrt.Choose(name+"_byte", 0, 1, 4094, 4095)
@@ -109,6 +111,10 @@ func (w *vW) hooks() {
 			// bound B_blocks on objects that may be freed inline: at most sizeblocks blocks, or large
 			// enough (>= 600 blocks) that freeing is handed to the background shrinker
 			verifrt.Assume(ip.ShrinkSize <= sb || ip.ShrinkSize >= 600)
+			if verifrt.Param("pendingshrink", 1) == 0 {
+				// no shrink pending on the objects this request meets
+				verifrt.Assume(ip.ShrinkSize == (ip.Size+4095)/4096)
+			}
 		}
 		for i := uint64(0); i < 10; i++ {
 			p := ip.VerifBlks()[i]
@@ -254,6 +260,8 @@ func (w *vW) vName(name string) nfstypes.Filename3 {
 	var n uint64
 	if verifrt.Param("longnames", 0) == 1 {
 		n = verifrt.Choose(name+"_len", 1, 2, 0, 3, 110, 111, 112, 113, 255, 300)
+	} else if verifrt.Param("namelens", 3) == 2 {
+		n = verifrt.Choose(name+"_len", 1, 2)
 	} else {
 		n = verifrt.Choose(name+"_len", 1, 2, 3)
 	}
